@@ -26,14 +26,61 @@ def _gen_one(args):
     return (prog, src, ref)
 
 
+def _gen_chunk(chunk):
+    return [_gen_one(a) for a in chunk]
+
+
+def _map_robust(args, chunk=50):
+    """pool.map that survives a dying worker (a generator recursion deep enough to overflow the C
+    stack kills the process: multiprocessing.Pool would wait for its result for ever). A chunk whose
+    worker died is generated again item by item, each in a process of its own; an item that kills
+    its process is dropped (None)."""
+    import concurrent.futures as cf
+    chunks = [args[i:i + chunk] for i in range(0, len(args), chunk)]
+    out = [None] * len(chunks)
+    pending = list(range(len(chunks)))
+    for _attempt in range(3):
+        if not pending:
+            break
+        broken = []
+        with cf.ProcessPoolExecutor(min(16, vlib.NCPU)) as ex:
+            futs = {ci: ex.submit(_gen_chunk, chunks[ci]) for ci in pending}
+            for ci, f in futs.items():
+                try:
+                    out[ci] = f.result(timeout=1800)
+                except Exception:
+                    broken.append(ci)
+        if not broken:
+            pending = []
+            break
+        # the pool is broken as a whole once one worker dies: chunks that merely shared the pool are
+        # retried; after the first retry every remaining chunk goes item by item
+        if _attempt == 0:
+            pending = broken
+            continue
+        for ci in broken:
+            items = []
+            for a in chunks[ci]:
+                try:
+                    with cf.ProcessPoolExecutor(1) as ex1:
+                        items.append(ex1.submit(_gen_one, a).result(timeout=600))
+                except Exception:
+                    items.append(None)
+            out[ci] = items
+        pending = []
+    res = []
+    for ci, o in enumerate(out):
+        res.extend(o if o is not None else [None] * len(chunks[ci]))
+    return res
+
+
 def gen_batch(seed, n, cfg=None, max_steps=60000, start=0, keep_unsupported=False):
     """-> list of (idx, prog, src, ref) for programs inside the reference fragment"""
     c = dict(SAFE_CFG)
     if cfg:
         c.update(cfg)
     args = [(seed, start + i, c, max_steps) for i in range(n)]
-    with multiprocessing.Pool(min(16, vlib.NCPU)) as pool:
-        res = pool.map(_gen_one, args, chunksize=50)
+    res = _map_robust(args)
     out = []
     unsupported = 0
     for i, r in enumerate(res):
